@@ -74,6 +74,32 @@ Theorem C05_id_is_counter_mod_2_32 : forall cfg evs k i,
 Proof. exact ids_wrap_statement. Qed.
 Print Assumptions C05_id_is_counter_mod_2_32.
 
+(* 8. a started frame is finished, or the connection is dead. Once the header of a frame has been written
+      (the write loop is in WPayload o) every possible next event — of any caller, of the read loop, of Connect,
+      Close, cancellations included — either leaves wire/out/the write loop untouched, or is the payload Write
+      (the complete payload, then the loop goes on), or is a failing Write (the write loop dies: by theorem 1
+      nothing is ever written after that). There is no transition that abandons a frame and goes on writing.
+      What stays abstract: the payload Write is ONE event — how io.Copy chunks the payload is not modelled; a
+      chunked copy that could be given up between chunks would be exactly the missing transition, and its absence in
+      the code is checked dynamically (check family cancel-midframe: the peer stalls at every point of a large frame,
+      the sender is cancelled, other traffic queues up, the raw wire must still parse as whole frames). *)
+Theorem C05_started_frame_finished_or_dead : forall cfg evs o e,
+  let s := run cfg evs in
+  writer s = WPayload o ->
+  let s' := step cfg s e in
+  (writer s' = WPayload o /\ wire s' = wire s /\ out s' = out s) \/
+  (e = WWritePay /\ wire s' = wire s ++ [CPay o] /\ out s' = out s ++ [o] /\ writer s' = after_frame o) \/
+  (exists k, e = WriteFail k /\ writer s' = WDead /\ wire s' = wire s ++ [CPartial o true k] /\ out s' = out s).
+Proof. exact started_frame_finished_or_dead. Qed.
+Print Assumptions C05_started_frame_finished_or_dead.
+
+(* 9. a caller giving up (context cancelled, or client closed) never touches the write side — in ANY state *)
+Theorem C05_cancel_leaves_write_side : forall cfg s c,
+  wire (step cfg s (Cancel c)) = wire s /\ out (step cfg s (Cancel c)) = out s /\ writer (step cfg s (Cancel c)) = writer s /\
+  wire (step cfg s (SeeClosed c)) = wire s /\ out (step cfg s (SeeClosed c)) = out s /\ writer (step cfg s (SeeClosed c)) = writer s.
+Proof. exact cancel_leaves_write_side. Qed.
+Print Assumptions C05_cancel_leaves_write_side.
+
 (* every complete frame is its header Write followed — iff the payload is not empty — by its
    payload Write; this includes CloseConnection frames (the write loop parks only after the whole
    frame, reader.go after commit 1713ba3) *)
